@@ -38,7 +38,7 @@ def plan(tier, seed):
     n = 8 if tier == "quick" else 32
     for i in range(n):
         shards.append({"kind": "attack", "tier": tier, "seed": seed, "shard": i, "mtu": mtus[i % len(mtus)],
-                       "ticks": 500 if tier == "quick" else 9000, "subprocess": True})
+                       "ticks": 500 if tier == "quick" else 5000, "subprocess": True})
     for i in range(2 if tier == "quick" else 8):
         shards.append({"kind": "freerun", "tier": tier, "seed": seed, "shard": i, "producers": 6,
                        "per_producer": 4000 if tier == "quick" else 60000, "subprocess": True})
@@ -64,7 +64,7 @@ def run_attack(cfg, out):
         if sum(1 for v in out["violations"] if v["mechanism"] == mech) < 5:
             out["violations"].append({"mechanism": mech, "msg": msg, "case_key": [cfg["seed"], cfg["shard"]], "case": {"shard": cfg["shard"]}})
 
-    with T.Run(r, mtu=cfg["mtu"], blocklist=set(blocked_ips), bitfield=False,
+    with T.Run(r, mtu=cfg["mtu"], blocklist=set(blocked_ips), bitfield=False, light=True,
                ctxt_setup=lambda ctxt: ctxt.setTempConnectionTimeout(r.choice([0.5, 2.0]))) as run:
         w = run.world
         P = run.C.Packet
